@@ -2281,8 +2281,14 @@ void mmd_export_token_latex_tt(DString * out, const char * source, token * t, sc
 		case HASH5:
 		case HASH6:
 		case TEXT_HASH:
-			print_const("\\");
-			print_token(t);
+			for (int i = 0; i < t->len; ++i) {
+				if (source[t->start + i] == '#') {
+					print_const("\\#");
+				} else {
+					print_char(source[t->start + i]);
+				}
+			}
+
 			break;
 
 		case HTML_ENTITY:
